@@ -148,7 +148,7 @@ def renderable(funcs):
 
 
 # ------------------------------------------------------------------ running the real compiler
-def run_ptgpp(exe, jdf, outbase, flags=(), timeout=60, env=None):
+def run_ptgpp(exe, jdf, outbase, flags=(), timeout=300, env=None):
     """One run of parsec-ptgpp.  Returns dict rc/sig/out/err/c/h (bytes of the emitted files or None)."""
     for ext in ('.c', '.h'):
         try:
@@ -808,7 +808,7 @@ W_RE = [
     (re.compile(r'Function T(\d+): has too many \((\d+)\) output or WRITE flows'), 'wr'),
 ]
 RANK_W = {'din': 0, 'dout': 0, 'rd': 1, 'wr': 2}
-RANK_E = {'flows': 0, 'unused': 0.5, 'din': 1, 'dout': 1, 'rd': 2, 'wr': 3, 'noldef': 4, 'other': 5}
+RANK_E = {'locals': -1, 'flows': 0, 'unused': 0.5, 'din': 1, 'dout': 1, 'rd': 2, 'wr': 3, 'noldef': 4, 'other': 5}
 
 
 def _fmt(items, rank):
@@ -876,6 +876,8 @@ def fired_errors(o, L):
                 nerr += 1
             elif "size of array 'unused' is negative" in ln.replace('\u2018', "'").replace('\u2019', "'") and nunused > 0:
                 nunused -= 1
+            elif "size of array 'reserved' is negative" in ln.replace('\u2018', "'").replace('\u2019', "'") and any(e[0] == 'locals' for e in es):
+                pass
             else:
                 m = re.search(r"_T(\d+)_assignment_s\W.*has no member named .ldef.", ln)
                 if m:
@@ -1083,9 +1085,14 @@ def make_cases(ctx, L):
     q = ctx.quick
     B = boundary_shapes(L)
     if q:
-        # a seed-dependent half of the boundary shapes; the corpus holds the witnesses of the theorems
-        idx = sorted(range(len(B)), key=lambda i: rng.fork(1000 + i).next())[:len(B) // 3]
-        B = [B[i] for i in sorted(idx)]
+        # the shapes right at and right above each checked limit always run; of the others a seed-dependent quarter
+        # (the corpus holds the witnesses of the theorems)
+        core = ('din+0', 'din+1', 'dout+0', 'dout+1', 'read flows+1', 'write flows+1', 'rw flows+0', 'locals+0')
+        rest = [i for i in range(len(B)) if B[i][0] not in core]
+        idx = sorted(rest, key=lambda i: rng.fork(1000 + i).next())[:len(rest) // 4]
+        B = [B[i] for i in range(len(B)) if B[i][0] in core or i in idx]
+    else:
+        core = ()
     groups = {
         'boundary': [shape_case('b%d' % i, 'boundary:' + nm, s) for i, (nm, s) in enumerate(B)],
         'random-shape': [shape_case('r%d' % i, 'random-shape', random_shape(rng.fork(2000 + i), L)) for i in range(10 if q else 200)],
@@ -1109,7 +1116,8 @@ def make_cases(ctx, L):
         for g in gl:
             if i * len(g) // n != (i + 1) * len(g) // n:
                 order.append(g[i * len(g) // n])
-    return load_corpus(), order
+    always = load_corpus() + [c for c in order if c['origin'].startswith('boundary:') and (not q or c['origin'][9:] in core)]
+    return always, [c for c in order if c not in always]
 
 
 # ------------------------------------------------------------------ run
@@ -1229,6 +1237,12 @@ def evaluate(ctx, res, L, done, stats):
     return nviol
 
 
+def _sig(what):
+    """first compiler error of a violation text without the identifiers: keeps ddmin on the same failure"""
+    m = re.search(r"error: ([^'\u2018;\[]{6,60})", what)
+    return m.group(1).strip() if m else ''
+
+
 def shrink_new(ctx, res, env, L):
     """minimise the cases of violations that are not listed findings (bounded effort)"""
     known = set(f['key'] for f in pv.known_findings(PROP))
@@ -1245,7 +1259,7 @@ def shrink_new(ctx, res, env, L):
         def still(text, shape=None):
             case = {'kind': c['kind'], 'text': text, 'shape': shape, 'origin': 'shrink', 'finding': None}
             o = observe(env, tag, text, (c['mode'],))[c['mode']]
-            return any(k == v['key'] for k, _ in judge(case, o, L))
+            return any(k == v['key'] and _sig(w) == _sig(v['what']) for k, w in judge(case, o, L))
         try:
             if c['kind'] == 'jdf':
                 lines = c['text'].split('\n')
@@ -1296,12 +1310,10 @@ def run(ctx, res):
     stats = {}
     corpus, gen = make_cases(ctx, L)
     done = run_cases(env, corpus)
-    done += run_cases(env, gen, budget=(40 if ctx.quick else 780), floor=(24 if ctx.quick else 300))
+    done += run_cases(env, gen, budget=(30 if ctx.quick else 540), floor=(20 if ctx.quick else 200))
     stats['cases_generated'] = len(gen)
     stats['cases_run'] = len(done)
     evaluate(ctx, res, L, done, stats)
-    if res.disagreements and ctx.quick is False:
-        pass
     shrink_new(ctx, res, env, L)
     res.rule = ('case = one JDF program x one command line (default / --Werror). Corpus (witnesses of the theorems and of the findings) + '
                 'boundary shapes on both sides of every limit + random shapes + grammar-generated valid programs (1-3 task classes, ranges, steps, '
